@@ -441,6 +441,47 @@ class ConcCheck(SeqCheck):
     def __init__(self, prop, pred, text):
         super().__init__(prop, pred, text)
         self.with_async = True
+        self.extra = self.script_suite
+        self.script_bad = []
+    def script_suite(self, ctx, seqrun, stats, divs):
+        """S-script: executions of the proved release/acquire machine (RAn, extracted) - interleavings and STALE reads chosen by the
+        machine - replayed on the real crate with two OS threads under a scripted scheduler (harness/src/bin/concrun.rs)"""
+        self.script_bad = []
+        if ctx.prop == 'C07': return
+        bindir, log = ctx.build_harness(('concrun',))
+        if bindir is None:
+            self.script_bad.append(('concrun does not build against the current /repo tree', log[-3000:], None)); return
+        with common.Lock('coq'):
+            cm = os.path.join(common.OCAML, 'concmodel')
+            src = [os.path.join(common.OCAML, x) for x in ('model.ml', 'model.mli', 'concdriver.ml')]
+            if not os.path.exists(cm) or os.path.getmtime(cm) < max(os.path.getmtime(x) for x in src):
+                rc, out = common.sh('ocamlfind ocamlopt -O2 -w -a model.mli model.ml concdriver.ml -o concmodel', cwd=common.OCAML)
+                if rc != 0:
+                    self.script_bad.append(('concmodel does not build', out[-3000:], None)); return
+        n = 300 if ctx.tier == 'quick' else 20000
+        shards = 4 if ctx.tier == 'quick' else 16
+        total = ok = events = 0
+        for k in range(shards):
+            path = os.path.join(ctx.work, f'script{k}.cases')
+            rc, out = common.sh([cm, 'gen', str(int(ctx.seed) * 100 + k), str(n // shards), '9'])
+            open(path, 'w').write(out)
+            rc, res = common.sh([os.path.join(bindir, 'concrun'), path], timeout=1800)
+            cases = out.split('end\n')
+            for line in res.splitlines():
+                m = re.match(r'case (\d+) (ok|MISMATCH)(.*)', line)
+                if not m: continue
+                total += 1
+                if m.group(2) == 'ok':
+                    ok += 1
+                    e = re.search(r'events=(\d+)', line); events += int(e.group(1)) if e else 0
+                else:
+                    cid = int(m.group(1))
+                    text = next((c for c in cases if c.startswith(f'case {cid} ')), '')
+                    self.script_bad.append((m.group(3).strip(), text + 'end\n', path))
+            if rc not in (0, 1) and not self.script_bad:
+                self.script_bad.append((f'concrun exited with code {rc}', res[-2000:], path))
+        ctx.notes['script_suite'] = {'cases': total, 'ok': ok, 'atomic_events': events, 'generator': 'concmodel gen (extracted RAn.step_a, stale reads via Model.pick)'}
+        stats.histories += total; stats.steps += events
     def suites(self, ctx):
         s = ctx.seed
         if ctx.tier == 'quick':
@@ -480,6 +521,15 @@ class ConcCheck(SeqCheck):
                                   f'## model-level failing execution (evaluated by coqc on this run): {term} = true\n## {story}\n## observed profile (gen/Profile.v): {prof}\n'
                                   + ('## first diverging event trace:\n' + divs[0].replay_text() if divs else ''))
                     return
+        if self.script_bad and ctx.prop in ('C02', 'C03', 'C10'):
+            what, text, path = min(self.script_bad, key=lambda b: len(b[1]))
+            short = {'C02': 'publishes before the data is in place' in what or 'consumed' in what or 'item' in what,
+                     'C03': 'publishes before the data is in place' in what,
+                     'C10': 'expected' in what and 'got' in what}[ctx.prop]
+            ctx.violation(f'an execution of the proved release/acquire machine (interleaving + stale reads) does not replay on the real crate: {what} '
+                          f'({len(self.script_bad)} cases)',
+                          '## S-script case (replay: .build/cargo/debug/concrun <file with this case>)\n' + text, no_input=not short)
+            return
         mine = [d for d in divs if self.pred(d)]
         if mine:
             d = self.minimise(ctx, min(mine, key=lambda d: len(d.prefix())))
